@@ -23,7 +23,7 @@ func init() {
 		ID:        "C15",
 		Level:     "fault_enumeration",
 		Technique: "exhaustive fault enumeration at the io.Writer seam: for every renderer and table, every index k of a Write call of the fault-free run x every failure mode (deviation-bounded: 1 and 2 scripted deviations) on the real RenderTo",
-		Rule: "9 tables (header/no header, separators, short rows needing padding, zero-cell rows, multi-line cells, zero columns) x 9 renderers (csv, json, markdown, html, html+row classes, text heavy/ascii/none/custom) x writer kind {plain io.Writer, io.StringWriter too}; the fault-free run gives W = number of Write calls and the reference bytes; " +
+		Rule: "10 tables (header/no header, separators, short rows needing padding, zero-cell rows, multi-line cells, zero columns, cells of 600-2000 bytes) x 9 renderers (csv, json, markdown, html, html+row classes, text heavy/ascii/none/custom) x writer kind {plain io.Writer, io.StringWriter too}; the fault-free run gives W = number of Write calls and the reference bytes; " +
 			"then every k in 1..W x mode {fail from k on, fail only at k, accept half the bytes and return an error at k, accept half the bytes with a nil error (short write) at k}; plus every pair k1<k2 of single-call failures; family second-render-after-fault: on ONE long-lived wrapper a RenderTo failing at any k1/mode is followed by a second RenderTo (healthy or failing at any k2), which must satisfy the property as well; " +
 			"non-trivial = a run in which the injected fault was reached; distinct by (table, renderer, writer kind, k, mode)",
 		Assumptions: []string{"the writer is the only fault source", "after a single failed call later calls are accepted (a writer may recover); the property then still demands an error and a prefix up to the failure",
@@ -126,6 +126,11 @@ func c15Tables() []c10Table {
 			out = append(out, t)
 		}
 	}
+	out = append(out, c10Table{"long cells (600 and 2000 bytes) and a long header", func(t tabular.Table) {
+		t.AddHeaders("h1", strings.Repeat("H", 700))
+		t.AddRowItems(strings.Repeat("x", 600), strings.Repeat("y\"", 1000))
+		t.AddRowItems("short", strings.Repeat("é", 300))
+	}})
 	return out
 }
 
